@@ -12,7 +12,7 @@
 EXTENDS Integers, Sequences, FiniteSets, TLC, Json
 CONSTANTS TraceFile
 Trace == ndJsonDeserialize(TraceFile)
-VARIABLES l, prog, exp, xd, xb, tb     \* xd: records dropped by the extraction transforms of the input; exp: set of <<label, host, count, bytes>> kept as a function (label, host) -> <<count, bytes>>
+VARIABLES l, prog, exp, xd, xb, tb, xl     \* xd: records dropped by the extraction transforms of the input; exp: set of <<label, host, count, bytes>> kept as a function (label, host) -> <<count, bytes>>
 E == Trace[l]
 \* the labels a record books, in program order, until a drop takes it out
 RECURSIVE Hits(_, _, _)
@@ -36,23 +36,28 @@ Book(f, labs, host, n) == IF labs = <<>> THEN f
 Expected == UNION {{<<k[1], k[2], "count", exp[k][1]>>, <<k[1], k[2], "bytes", exp[k][2]>>} : k \in DOMAIN exp}
 Observed(e) == {<<e.observed[i][1], e.observed[i][2], e.observed[i][3], e.observed[i][4]>> : i \in 1..Len(e.observed)}
 
-TInit == l = 1 /\ prog = <<>> /\ exp = <<>> /\ xd = 0 /\ xb = 0 /\ tb = 0 /\ TLCSet(1, 1)
+TInit == l = 1 /\ prog = <<>> /\ exp = <<>> /\ xd = 0 /\ xb = 0 /\ tb = 0 /\ xl = <<>> /\ TLCSet(1, 1)
 TNext ==
   /\ l <= Len(Trace) /\ l' = l + 1
-  /\ CASE E.ev = "Program" -> prog' = E.steps /\ exp' = <<>> /\ xd' = 0 /\ xb' = 0 /\ tb' = 0
-       [] E.ev = "LRec" /\ E.xdrop -> E.res = "rejected" /\ xd' = xd + 1 /\ xb' = xb + E.len /\ tb' = tb + E.len /\ UNCHANGED <<prog, exp>>   \* taken out by the input's own drop step
+  /\ CASE E.ev = "Program" -> prog' = E.steps /\ exp' = <<>> /\ xd' = 0 /\ xb' = 0 /\ tb' = 0 /\ xl' = <<>>
+       [] E.ev = "LRec" /\ E.xdrop -> E.res = "rejected" /\ xd' = xd + 1 /\ xb' = xb + E.len /\ tb' = tb + E.len
+                                     \* the labelled counter of the input's drop step that took it (two steps share the label lx)
+                                     /\ xl' = (IF E.xlabel = "" THEN xl ELSE Book(xl, <<E.xlabel>>, "in", E.len))
+                                     /\ UNCHANGED <<prog, exp>>   \* taken out by the input's own drop step
        [] E.ev = "LRec" /\ ~E.xdrop ->
                            /\ (E.res = "dropped") = Dropped(prog, E) /\ E.res \in {"dropped", "passed"}
-                           /\ exp' = Book(exp, Hits(prog, 1, E), E.host, E.len) /\ tb' = tb + E.len /\ UNCHANGED <<prog, xd, xb>>
-       [] E.ev = "Labels" -> Observed(E) = Expected /\ UNCHANGED <<prog, exp, xd, xb, tb>>
+                           /\ exp' = Book(exp, Hits(prog, 1, E), E.host, E.len) /\ tb' = tb + E.len /\ UNCHANGED <<prog, xd, xb, xl>>
+       [] E.ev = "Labels" -> Observed(E) = Expected /\ UNCHANGED <<prog, exp, xd, xb, tb, xl>>
        \* input passed + dropped = messages received; pipeline passed + dropped = input passed (also with drops inside the input)
        [] E.ev = "Balance" -> /\ E.inPassed + E.inDropped = E.lines /\ E.inDropped = xd
                               /\ E.procPassed + E.procDropped = E.inPassed
                               \* ... each with its byte length, on the side it was counted
                               /\ E.inDroppedBytes = xb /\ E.inPassedBytes = tb - xb
-                              /\ UNCHANGED <<prog, exp, xd, xb, tb>>
+                              /\ {<<E.inLabelled[i][1], E.inLabelled[i][2], E.inLabelled[i][3]>> : i \in 1..Len(E.inLabelled)}
+                                   = {<<k[1], xl[k][1], xl[k][2]>> : k \in DOMAIN xl}
+                              /\ UNCHANGED <<prog, exp, xd, xb, tb, xl>>
        [] OTHER -> FALSE
-TSpec == TInit /\ [][TNext]_<<l, prog, exp, xd, xb, tb>>
+TSpec == TInit /\ [][TNext]_<<l, prog, exp, xd, xb, tb, xl>>
 HWM == IF l > TLCGet(1) THEN TLCSet(1, l) ELSE TRUE
 Accepted_ == IF TLCGet(1) = Len(Trace) + 1 THEN TRUE
              ELSE PrintT(<<"HWM", TLCGet(1), Trace[TLCGet(1)]>>) /\ FALSE
